@@ -319,3 +319,90 @@ UNITS = {"check_indices": unit_check_indices()}
 for _m in ("none", "idx", "rows"):
     UNITS[f"_validate_data.{_m}"] = unit_validate(_m)
     UNITS[f"_transform_candidates.{_m}"] = unit_transform(_m)
+
+
+# ------------------------------------------------------------------------------------------ C08: representation lemma
+def unit_sorted_sequences_lemma(tier=None):
+    """two strictly increasing integer sequences with the same set of values are equal (by induction on the position)"""
+    from pyvc.solve import solve_one
+    a, b = z3.Function("a", I, I), z3.Function("b", I, I)
+    m, k, t, u, s_ = z3.Ints("m k t u s")
+    inc = lambda f, n: z3.ForAll([t, u], z3.Implies(z3.And(0 <= t, t < u, u < n), f(t) < f(u)))
+    sub = lambda f, nf, g, ng: z3.ForAll([t], z3.Implies(z3.And(0 <= t, t < nf), z3.Exists([u], z3.And(0 <= u, u < ng, g(u) == f(t)))))
+    hyp = [m >= 0, k >= 0, inc(a, m), inc(b, k), sub(a, m, b, k), sub(b, k, a, m)]
+    obs = []
+    for name, pc, goal in (
+            ("same_length_and_pointwise.step", hyp + [0 <= s_, s_ < m, s_ < k, z3.ForAll([t], z3.Implies(z3.And(0 <= t, t < s_), a(t) == b(t)))], a(s_) == b(s_)),
+            ("no_longer_a", hyp + [k < m, z3.ForAll([t], z3.Implies(z3.And(0 <= t, t < k), a(t) == b(t)))], z3.BoolVal(False)),
+            ("no_longer_b", hyp + [m < k, z3.ForAll([t], z3.Implies(z3.And(0 <= t, t < m), a(t) == b(t)))], z3.BoolVal(False))):
+        r = solve_one({"name": "sorted_sequences." + name, "pc": pc, "goal": goal, "meta": {}}, timeout_ms=20000)
+        r["goal_text"] = str(goal)[:200]
+        obs.append(r)
+    return {"unit": "pool_base.lemma.sorted_sequences", "target": "lemma used by the representation equivalence (C08)", "kind": "lemma",
+            "obligations": obs, "abstracted": [], "dropped": [], "lib": [], "paths": len(obs)}
+
+
+def unit_representation():
+    """candidates=None and candidates=<unlabeled indices> give the same validated tuple: batch size, mapping (as a set and,
+    with the sorted-sequences lemma, position by position), generator identity"""
+    def setup(E, st):
+        n, d, X, y = world(st)
+        selfo = strategy_obj(st)
+        bs, ru = z3.Int("batch_size"), z3.Bool("return_utilities")
+        return {"args": [selfo, X, y, None, bs, ru], "n": n, "X": X, "y": y, "bs": bs, "ru": ru, "self": selfo}
+
+    def post(E, ctx, outs):
+        repo = E.repo
+        fv = repo.func(FB, "SingleAnnotatorPoolQueryStrategy._validate_data")
+        ft = repo.func(FB, "SingleAnnotatorPoolQueryStrategy._transform_candidates")
+        cls = "SingleAnnotatorPoolQueryStrategy"
+        for o in returns(outs):
+            st1 = o.state
+            X1, y1, c1, bs1, _ = o.value
+            rng1 = st1.get(st1.get(ctx["self"]).fields["random_state_"])
+            E1 = Engine(repo, cls=cls, file=FB, lib=E.lib, inline=INL)
+            for o1 in returns(E1.verify(ft, st1.fork(), [ctx["self"], c1, X1, y1], cls=cls)):
+                Xc1, mp1 = o1.value
+                mpa1 = o1.state.get(mp1)
+                # second call: the unlabeled indices given explicitly
+                E2 = Engine(repo, cls=cls, file=FB, lib=E.lib, inline=INL)
+                for o2 in returns(E2.verify(fv, o1.state.fork(), [ctx["self"], ctx["X"], ctx["y"], mp1, ctx["bs"], ctx["ru"]], cls=cls)):
+                    X2, y2, c2, bs2, _ = o2.value
+                    st2 = o2.state
+                    rng2 = st2.get(st2.get(ctx["self"]).fields["random_state_"])
+                    E3 = Engine(repo, cls=cls, file=FB, lib=E.lib, inline=INL)
+                    for o3 in returns(E3.verify(ft, st2.fork(), [ctx["self"], c2, X2, y2], cls=cls)):
+                        Xc2, mp2 = o3.value
+                        s3 = o3.state
+                        mpa2 = s3.get(mp2)
+                        k1, k2 = to_int(mpa1.shape[0]), to_int(mpa2.shape[0])
+                        t, u = z3.Ints("t u")
+                        # instance of the sorted-sequences lemma (proved in unit representation.lemma.sorted_sequences) for the
+                        # unlabeled positions and their np.unique image (the validated index candidates)
+                        ca = st2.get(c2)
+                        kc = to_int(ca.shape[0])
+                        inc = lambda f, nn: z3.ForAll([t, u], z3.Implies(z3.And(0 <= t, t < u, u < nn), to_int(f.sel(t)) < to_int(f.sel(u))))
+                        sub = lambda f, nf, g, ng: z3.ForAll([t], z3.Implies(z3.And(0 <= t, t < nf), z3.Exists([u], z3.And(0 <= u, u < ng, to_int(g.sel(u)) == to_int(f.sel(t))))))
+                        s3.assume(z3.Implies(z3.And(inc(mpa1, k1), inc(ca, kc), sub(mpa1, k1, ca, kc), sub(ca, kc, mpa1, k1)),
+                                             z3.And(k1 == kc, z3.ForAll([t], z3.Implies(z3.And(0 <= t, t < k1), to_int(mpa1.sel(t)) == to_int(ca.sel(t)))))))
+                        chk = z3.Solver()
+                        chk.set("timeout", 5000)
+                        chk.add(*s3.pc)
+                        if chk.check() == z3.unsat:
+                            continue      # this combination of branches of the two calls is infeasible (e.g. clipped once, not twice)
+                        E.oblige("C08.same_batch_size", s3, to_int(bs1) == to_int(bs2))
+                        E.oblige("C08.same_generator", s3, getattr(rng1, "ident", z3.IntVal(-1)) == getattr(rng2, "ident", z3.IntVal(-2)))
+                        E.oblige("C08.mapping2_strictly_increasing", s3, z3.ForAll([t, u], z3.Implies(z3.And(0 <= t, t < u, u < k2), to_int(mpa2.sel(t)) < to_int(mpa2.sel(u)))))
+                        E.oblige("C08.mapping1_subset_of_mapping2", s3, z3.ForAll([t], z3.Implies(z3.And(0 <= t, t < k1),
+                                 z3.Exists([u], z3.And(0 <= u, u < k2, to_int(mpa2.sel(u)) == to_int(mpa1.sel(t)))))))
+                        E.oblige("C08.mapping2_subset_of_mapping1", s3, z3.ForAll([t], z3.Implies(z3.And(0 <= t, t < k2),
+                                 z3.Exists([u], z3.And(0 <= u, u < k1, to_int(mpa1.sel(u)) == to_int(mpa2.sel(t)))))))
+                        E.oblige("C08.X_cand_is_X[mapping]_in_both", s3, z3.BoolVal(isinstance(Xc1, Ref) and isinstance(Xc2, Ref)))
+        if not returns(outs) or not E.obligations:
+            E.oblige("reaches.return", [], z3.BoolVal(False))
+    return se_unit("pool_base.representation_None_vs_unlabeled_indices", FB, "SingleAnnotatorPoolQueryStrategy._validate_data",
+                   "SingleAnnotatorPoolQueryStrategy", setup, post, inline=INL, lib_factory=lambda: check_indices_contract(pool_lib()))
+
+
+UNITS["representation.lemma.sorted_sequences"] = unit_sorted_sequences_lemma
+UNITS["representation.None_vs_indices"] = unit_representation()
